@@ -147,10 +147,11 @@ ALL = FIXED + ['adaptive']
 # configurations that also take part in sequences mixing runs over windows of different length
 SHORT_RUNS = ['hooks', 'restarts']
 SHARED_FAMILY = ['sdc', 'sdcs', 'lobatto', 'rk']
+CP_PAIRS = [(a, b) for a in ('adaptive', 'sdc', 'mssdc', 'restarts', 'hooks') for b in ('sdc', 'lobatto', 'mssdc', 'adaptive', 'mlsdc') if a != b]
 NESTED = ('problem_params', 'sweeper_params', 'level_params', 'step_params')
 
 
-def build(name, shared=None):
+def build(name, shared=None, shared_cp=None):
     """shared: a dict carried along one sequence. All controllers of the sequence are then built from ONE description
     object that the 'user' edits in place between constructions: top-level entries are assigned, the nested parameter
     dictionaries keep their identity, the user removes the keys the previous configuration had set and sets the new
@@ -176,6 +177,20 @@ def build(name, shared=None):
         shared['user_keys'] = {k: set(desc[k]) for k in NESTED if k in desc}
         shared['top_keys'] = set(desc)
         desc = D
+    if shared_cp is not None:
+        # ONE controller_params dictionary for all controllers of the sequence: the user assigns only the entries whose
+        # value differs from what they assigned last time and removes the entries the new configuration does not set
+        CP = shared_cp.setdefault('cp', {})
+        mine = shared_cp.setdefault('user_values', {})
+        for k in list(mine):
+            if k not in cp:
+                CP.pop(k, None)
+                del mine[k]
+        for k, v in cp.items():
+            if k not in mine or mine[k] != v:
+                CP[k] = v
+                mine[k] = list(v) if isinstance(v, list) else v
+        cp = CP
     return controller_nonMPI(num_procs=P, controller_params=cp, description=desc), P, dt
 
 
@@ -302,6 +317,14 @@ def sequences(depth, names):
             for tail in ([('run', 1)], [('run', 0)], [('run', 0), ('run', 1)], [('run', 1), ('run', 0)]):
                 if 2 + len(tail) <= max(depth, 3):
                     seqs.append([('new_shared', a), ('new_shared', b)] + list(tail))
+    # one controller_params object reused for two differently configured controllers; the first one registers hooks of its
+    # own (through its convergence controllers, or through add_hook by the user)
+    for a, b in CP_PAIRS:
+        if a not in names or b not in names:
+            continue
+        for tail in ([('run', 1)], [('run', 0), ('run', 1)], [('run', 1), ('run', 0)]):
+            seqs.append([('new_cp', a), ('new_cp', b)] + list(tail))
+        seqs.append([('new_cp', a), ('add_hook', 0), ('new_cp', b), ('run', 1)])
     # only sequences that end in an observation are interesting; drop those ending with 'new'
     return [s for s in seqs if not s[-1][0].startswith('new')]
 
@@ -319,6 +342,13 @@ def execute(seq):
         elif op[0] == 'new_shared':
             ctrl, P, dt = build(op[1], shared=shared)
             live.append((op[1], ctrl))
+        elif op[0] == 'new_cp':
+            ctrl, P, dt = build(op[1], shared_cp=shared)
+            live.append((op[1], ctrl))
+        elif op[0] == 'add_hook':
+            from pySDC.implementations.hooks.log_work import LogSDCIterations
+
+            live[op[1]][1].add_hook(LogSDCIterations)
         elif op[0] == 'run':
             n, c = live[op[1]]
             obs.append((idx, n, 'full', logical_run(n, 'full', c)))
